@@ -19,7 +19,8 @@ static long halfobj;
 static size_t mkkey(unsigned char *b, int id) {
     switch (profile) {
     case 0: return (size_t) sprintf((char *) b, "k%06d", id) + 1;
-    case 1: { int h = id / 2; b[0] = (unsigned char) (h >> 8); b[1] = (unsigned char) h; if (id & 1) { b[2] = 0; return 3; } return 2; }
+    case 1: { int h = id / 2 + 0x7f;        /* the smallest keys straddle the 0x7f/0x80 byte boundary: the ordering is over unsigned bytes */
+              b[0] = (unsigned char) (h >> 8); b[1] = (unsigned char) h; if (id & 1) { b[2] = 0; return 3; } return 2; }
     case 2: { int32_t x = id * 7 - 50; memcpy(b, &x, 4); return 4; }
     default: return (size_t) sprintf((char *) b, "r%06d", KMAX - id) + 1;
     }
@@ -30,7 +31,7 @@ static int keyid(const void *p, size_t n) {
     int id = -1;
     switch (profile) {
     case 0: if (n == 8 && b[0] == 'k' && b[7] == 0) id = atoi((const char *) b + 1); break;
-    case 1: if (n == 2 || n == 3) id = ((b[0] << 8) | b[1]) * 2 + (n == 3); break;
+    case 1: if ((n == 2 || n == 3) && ((b[0] << 8) | b[1]) >= 0x7f) id = (((b[0] << 8) | b[1]) - 0x7f) * 2 + (n == 3); break;
     case 2: if (n == 4) { int32_t x; memcpy(&x, b, 4); if ((x + 50) % 7 == 0) id = (x + 50) / 7; } break;
     default: if (n == 8 && b[0] == 'r' && b[7] == 0) id = KMAX - atoi((const char *) b + 1); break;
     }
